@@ -219,6 +219,9 @@ func runCase(cs poolsim.Case, coqWanted bool) (coqOut string, failOut *failure, 
 		if len(b.Transactions)+len(b.V2Transactions()) > 1 {
 			st["mined-blocks-with-pool-transactions"]++
 		}
+		if len(b.Transactions) > 0 && len(b.V2Transactions()) > 1 {
+			st["mined-blocks-mixing-v1-and-v2-pool-transactions"]++
+		}
 		if mineRecord {
 			r.RecordMine(b)
 		}
@@ -268,6 +271,9 @@ func runCase(cs poolsim.Case, coqWanted bool) (coqOut string, failOut *failure, 
 			}
 			return ""
 		}
+		var evictedNow []*tracked
+		leftNow := map[types.TransactionID]bool{}
+		leftWhy := map[string]int{}
 		for id, tr := range track {
 			if in1[id] || in2[id] {
 				continue
@@ -310,7 +316,76 @@ func runCase(cs poolsim.Case, coqWanted bool) (coqOut string, failOut *failure, 
 				return
 			}
 			st["left:"+reason]++
+			leftWhy[reason]++
+			leftNow[id] = true
+			if reason == "evicted-when-full" {
+				evictedNow = append(evictedNow, tr)
+			}
+			if reason == "input-spent-or-uncreated" && pathFrom == tip {
+				st["left:input-spent-transiently-in-failed-reorg"]++
+			}
 			delete(track, id)
+		}
+		// "evicted for low fees": a transaction that left a full pool on its own account (no transaction it
+		// depends on left with it) paid no higher fee per weight than any transaction that stayed
+		if len(evictedNow) > 0 {
+			rate := func(tr *tracked) types.Currency {
+				if tr.v2 {
+					return tr.t2.MinerFee.Div64(tip.FullState.V2TransactionWeight(tr.t2))
+				}
+				return tr.t1.TotalFees().Div64(tip.FullState.TransactionWeight(tr.t1))
+			}
+			var minKept *types.Currency
+			for _, tr := range track {
+				if rt := rate(tr); minKept == nil || rt.Cmp(*minKept) < 0 {
+					minKept = &rt
+				}
+			}
+			for _, tr := range evictedNow {
+				dependent := false
+				for _, in := range tr.abs.Ins {
+					if maker, ok := madeBy[in.Key]; ok && leftNow[maker] {
+						dependent = true
+					}
+				}
+				if dependent || minKept == nil {
+					continue
+				}
+				st["evictions-judged-by-fee-rate"]++
+				if rt := rate(tr); rt.Cmp(*minKept) > 0 {
+					report("c05-evicted-not-lowest-fee", fmt.Sprintf("after %s the full pool evicted transaction %x, which pays %v per weight unit and depends on no other evicted transaction, while a transaction paying only %v stays", what, tr.abs.ID[:4], rt, *minKept))
+					return
+				}
+			}
+		}
+		if rev, _ := poolsim.TreePath(pathFrom, tip); pathFrom != nil && len(rev) > 0 {
+			// what one reorg did to the pool: confirmed some members, took some back from reverted blocks, invalidated some
+			reentered := 0
+			for _, x := range rev {
+				for _, y := range x.Block.Transactions {
+					if in1[y.ID()] {
+						reentered++
+					}
+				}
+				for _, y := range x.Block.V2Transactions() {
+					if in2[y.ID()] {
+						reentered++
+					}
+				}
+			}
+			mix := ""
+			if leftWhy["confirmed"] > 0 {
+				mix += "+confirms"
+			}
+			if reentered > 0 {
+				mix += "+unconfirms"
+			}
+			if leftWhy["input-spent-or-uncreated"]+leftWhy["parent-left"] > 0 {
+				mix += "+invalidates"
+			}
+			if mix != "" {
+				st["reorg-mix:"+mix[1:]]++
+			}
 		}
 		st["retained-checks"] += len(track)
 		prevWeight = wsum
@@ -342,6 +417,20 @@ func runCase(cs poolsim.Case, coqWanted bool) (coqOut string, failOut *failure, 
 		}
 		r.DeferNext = false
 		st["submit:"+s.Flavor]++
+		{
+			// where the child height of this submission lies relative to the hardfork heights
+			child, hf := r.Tip.Height+1, w.Env.Net.HardforkV2
+			for name, h := range map[string]uint64{"allow": hf.AllowHeight, "require": hf.RequireHeight} {
+				switch {
+				case child+1 == h:
+					st["submission-at-child-height:"+name+"-1"]++
+				case child == h:
+					st["submission-at-child-height:"+name]++
+				case child == h+1:
+					st["submission-at-child-height:"+name+"+1"]++
+				}
+			}
+		}
 		if pan {
 			report("c05-submit-panic", fmt.Sprintf("submitting a %s set panicked", s.Flavor))
 			return 0
@@ -544,6 +633,33 @@ func runCase(cs poolsim.Case, coqWanted bool) (coqOut string, failOut *failure, 
 			} else {
 				st["submit-skipped"]++
 			}
+		case "side-reorg":
+			// a heavier sibling branch of the tip that confirms pooled transactions and double-spends one
+			if n, contested, done := r.SideReorg(g); done {
+				st["side-reorgs"]++
+				st["side-reorgs:pooled-transactions-confirmed-by-the-other-branch"] += n
+				if contested {
+					st["side-reorgs:input-of-a-pooled-transaction-spent-by-the-other-branch"]++
+				}
+				st["reorgs-with-reverts"]++
+				st["tip-changes"]++
+			} else {
+				st["side-reorg-skipped"]++
+			}
+		case "fail-reorg":
+			// a heavier side chain with an invalid second block: two blocks reverted, one applied, rollback
+			if n1, contested := r.FailingReorg(g); n1 != nil {
+				st["failed-reorgs"]++
+				st["failed-reorgs-with-transient-blocks"]++
+				st["transient-blocks"] += 3
+				if contested {
+					st["failed-reorgs-spending-a-pooled-input-transiently"]++
+				}
+				addPath(before, n1)
+				addPath(n1, before)
+			} else {
+				st["fail-reorg-skipped"]++
+			}
 		case "fill":
 			chains, size := 10, 1_000_000
 			fl := stp.Flavor
@@ -561,6 +677,26 @@ func runCase(cs poolsim.Case, coqWanted bool) (coqOut string, failOut *failure, 
 	for k, v := range r.Stats {
 		st[k] += v
 	}
+	{
+		// transactions that ended up in blocks of two branches (confirmed, reverted, re-offered, mined again)
+		in := map[types.TransactionID]int{}
+		for _, n := range t.Nodes {
+			if !n.ChainValid() || n.Corrupt != "" {
+				continue
+			}
+			for _, x := range n.Block.Transactions {
+				in[x.ID()]++
+			}
+			for _, x := range n.Block.V2Transactions() {
+				in[x.ID()]++
+			}
+		}
+		for _, c := range in {
+			if c > 1 {
+				st["transactions-confirmed-in-blocks-of-two-branches"]++
+			}
+		}
+	}
 	coq := ""
 	if coqWanted && r.NoCoq == "" && fail == nil {
 		coq = r.CoqCase()
@@ -571,7 +707,7 @@ func runCase(cs poolsim.Case, coqWanted bool) (coqOut string, failOut *failure, 
 var flavors = []string{
 	"fresh-v1", "fresh-v2", "chain-v1", "chain-v2", "chain-v2", "stale-v2", "stale-v2", "conflict-v1", "conflict-v2",
 	"set-conflict-v1", "set-conflict-v2", "set-invalid-v1", "set-invalid-v2", "partly-known-v1", "partly-known-v2",
-	"known-v1", "known-v2", "child-only-v1", "child-only-v2", "builder", "builder", "builder", "wrong-basis-v2", "corrupt-proof-v2", "dup-v1", "dup-v2",
+	"known-v1", "known-v2", "child-only-v1", "child-only-v2", "builder", "builder", "builder", "wrong-basis-v2", "corrupt-proof-v2", "dup-v1", "dup-v2", "resubmit-v1", "resubmit-v2", "resubmit-v2", "known-and-conflict-v1", "known-and-conflict-v2",
 }
 
 // corpus: directed histories, run first.
@@ -639,23 +775,34 @@ func corpus(seed uint64) []poolsim.Case {
 		c.Plan = append(c.Plan, poolsim.Step{Kind: "submit", Flavor: "fresh-v2", Seed: 45 + seed}, poolsim.Step{Kind: "mine"})
 		out = append(out, c)
 	}
-	// reorgs that fail after valid blocks of the other branch were applied (and blocks of the own branch
-	// reverted): trunk 1-2, branch A 3-4, branch B 5-6; 7 = a copy of 6 with an invalid body, 8 and 9 = header-valid
-	// blocks on top of it. The pool holds transactions that block 5 conflicts with and unrelated ones.
+	// one reorg that confirms pooled transactions (mined on the sibling branch as well), un-confirms those of
+	// the reverted tip and invalidates another one
 	for _, regime := range []int{2, 0, 1} {
-		c = poolsim.Case{Seed: seed*977 + 4000 + uint64(regime), Regime: regime, Opts: chaingen.GenOpts{Shape: []int{0, 1, 2, 3, 2, 5}, TxPerBlock: 2},
-			Extra: []poolsim.ExtraBlock{{Kind: "corrupt-copy", Of: 6}, {Kind: "on-invalid", Of: 7}, {Kind: "on-invalid", Of: 8}}}
-		add := func(ids ...int) poolsim.Step {
-			return poolsim.Step{Kind: "chain", Op: mgrsim.Op{Kind: "add", Nodes: ids}}
-		}
+		c = lin(regime, 5)
+		c.Seed += 5000
 		kind := map[int]string{2: "v2", 0: "v1", 1: "v2"}[regime]
-		c.Plan = []poolsim.Step{add(1, 2, 3, 4),
-			{Kind: "submit", Flavor: "spend-as-block:5", Seed: 51 + seed}, {Kind: "submit", Flavor: "spend-as-block:5", Seed: 52 + seed},
-			{Kind: "submit", Flavor: "fresh-" + kind, Seed: 53 + seed}, {Kind: "submit", Flavor: "chain-" + kind, Seed: 54 + seed},
-			{Kind: "submit", Flavor: "spend-as-block:4", Seed: 55 + seed},
-			add(5), add(7, 8), add(9),
-			{Kind: "submit", Flavor: "fresh-" + kind, Seed: 56 + seed}, {Kind: "mine"},
-			add(6), {Kind: "mine"}}
+		c.Plan = []poolsim.Step{all(5),
+			{Kind: "submit", Flavor: "fresh-" + kind, Seed: 61 + seed}, {Kind: "mine"},
+			{Kind: "submit", Flavor: "fresh-" + kind, Seed: 62 + seed}, {Kind: "submit", Flavor: "chain-" + kind, Seed: 63 + seed}, {Kind: "submit", Flavor: "fresh-" + kind, Seed: 64 + seed},
+			{Kind: "side-reorg", Seed: 65 + seed},
+			{Kind: "submit", Flavor: "fresh-" + kind, Seed: 66 + seed}, {Kind: "mine"},
+			{Kind: "side-reorg", Seed: 67 + seed}, {Kind: "mine"}}
+		if regime == 1 {
+			c.Plan = append(c.Plan[:3:3], append([]poolsim.Step{{Kind: "submit", Flavor: "fresh-v1", Seed: 68 + seed}}, c.Plan[3:]...)...)
+		}
+		out = append(out, c)
+	}
+	// reorgs that fail after a valid block of the other branch was applied (and two blocks of the own branch
+	// reverted) and are rolled back; the applied side block spends an input of a pooled transaction
+	for _, regime := range []int{2, 0, 1} {
+		c = lin(regime, 5)
+		c.Seed += 4000
+		kind := map[int]string{2: "v2", 0: "v1", 1: "v2"}[regime]
+		c.Plan = []poolsim.Step{all(5),
+			{Kind: "submit", Flavor: "fresh-" + kind, Seed: 51 + seed}, {Kind: "submit", Flavor: "chain-" + kind, Seed: 52 + seed}, {Kind: "submit", Flavor: "fresh-" + kind, Seed: 53 + seed},
+			{Kind: "fail-reorg", Seed: 54 + seed},
+			{Kind: "submit", Flavor: "fresh-" + kind, Seed: 55 + seed}, {Kind: "mine"},
+			{Kind: "fail-reorg", Seed: 56 + seed}, {Kind: "mine"}}
 		out = append(out, c)
 	}
 	// a well filled pool that is not full (8 chains x 5 x ~450 kB = 18e6 of 20e6), then a refused set
@@ -684,6 +831,11 @@ func run(c *hx.Ctx) {
 	res.Rule = "fork trees of real mined blocks (3 hardfork regimes, every transaction kind in the blocks) x histories interleaving block submissions (reorgs that confirm, unconfirm and invalidate pooled transactions) with pool submissions (fresh, parent/child, ephemeral, stale basis, conflicting, invalid, partly known, every generator transaction kind, wrong basis, corrupted proof), mining on the node, directed histories (window ending at the v2 require height, exactly full block, full pool); non-trivial := a reorg with reverts happened while the pool was non-empty and some set was accepted; distinct by (tree seed, plan)"
 	var cases []string
 	t0 := time.Now()
+	// when the pool is full is a parameter of the implementation: measured, not assumed
+	if note := poolsim.ProbeCapacity(1); note != "" {
+		res.Notes = append(res.Notes, note)
+	}
+	res.CountN("pool-capacity-in-block-weights", int(poolsim.CapBlocks))
 	doCase := func(cs poolsim.Case) {
 		coq, f, st, r := runCase(cs, true)
 		js, _ := json.Marshal(cs)
@@ -766,6 +918,17 @@ func run(c *hx.Ctx) {
 			continue
 		}
 		cs.Plan = poolsim.GenPlan(rng.New(cs.Seed^0x5ca1ab1e), t, flavors, 2)
+		if i%2 == 0 {
+			// every second history: two reorgs to a sibling branch built from the pool, somewhere in the second half
+			for k := 0; k < 2; k++ {
+				at := len(cs.Plan)/2 + g.Intn(len(cs.Plan)/2+1)
+				cs.Plan = append(cs.Plan[:at:at], append([]poolsim.Step{{Kind: "side-reorg", Seed: g.U64()}}, cs.Plan[at:]...)...)
+			}
+		}
+		if cs.Opts.Corruptions > 0 {
+			// (these histories are monitors-only anyway) a reorg that fails half way, then more of the same
+			cs.Plan = append(cs.Plan, poolsim.Step{Kind: "fail-reorg", Seed: g.U64()}, poolsim.Step{Kind: "submit", Flavor: "fresh-v2", Seed: g.U64()}, poolsim.Step{Kind: "mine"})
+		}
 		if i%3 == 1 {
 			// a stretch of block submissions without any pool read, sometimes begun by a refused set
 			cs.Plan = poolsim.QuietStretch(g, cs.Plan)
